@@ -177,6 +177,10 @@ func drawCase(t *rapid.T) hsCase {
 	c.ClientCert = rapid.SampledFrom([]string{"none", "trusted", "trusted", "callback", "untrusted", "callback_untrusted", "expired", "serverauth_only", "via_intermediate", "via_intermediate"}).Draw(t, "clientcert")
 	if c.ClientKind == "tls" {
 		c.ClientCert = rapid.SampledFrom([]string{"none", "rsa", "rsa", "ec", "ec", "rsa_callback", "ec_callback"}).Draw(t, "clientcert_tls")
+		if c.Peer == "gmtls" && gen.OneIn(t, "tlsuntrusted", 4) {
+			// a certificate from a CA that is not among the server's ClientCAs, offered all the same (callback)
+			c.ClientCert = rapid.SampledFrom([]string{"rsa_untrusted_callback", "ec_untrusted_callback"}).Draw(t, "clientcert_tls_untrusted")
+		}
 	}
 	c.Tickets = rapid.Bool().Draw(t, "tickets")
 	size := func(name string) int {
@@ -276,6 +280,9 @@ func build(c hsCase, id string) (ccfg, scfg *gmtls.Config) {
 	scfg.MinVersion, scfg.MaxVersion = c.SMin, c.SMax
 	scfg.ClientAuth = c.ClientAuth
 	scfg.ClientCAs = p.RootsAll
+	if c.ClientKind == "tls" && strings.Contains(c.ClientCert, "untrusted") {
+		scfg.ClientCAs = p.RootsSM2 // the RSA / ECDSA roots are not among them
+	}
 	scfg.SessionTicketsDisabled = !c.Tickets
 	if c.ClientKind == "gm" {
 		ccfg = tlsx.GMClient(p, "c"+id)
@@ -300,9 +307,9 @@ func build(c hsCase, id string) (ccfg, scfg *gmtls.Config) {
 		cc = p.ClientExpired
 	case "serverauth_only":
 		cc = p.ClientServerAuthOnly
-	case "rsa", "rsa_callback":
+	case "rsa", "rsa_callback", "rsa_untrusted_callback":
 		cc = p.RSAClient
-	case "ec", "ec_callback":
+	case "ec", "ec_callback", "ec_untrusted_callback":
 		cc = p.ECClient // ECDSA client certificate: the CertificateVerify hash differs from RSA below TLS 1.2
 	}
 	if cc != nil {
@@ -470,7 +477,7 @@ func model(c hsCase) (v verdict, why string, suite uint16, vers uint16) {
 		}
 		if c.ClientAuth == gmtls.VerifyClientCertIfGiven || c.ClientAuth == gmtls.RequireAndVerifyClientCert {
 			switch kind {
-			case "untrusted", "callback_untrusted", "expired", "serverauth_only":
+			case "untrusted", "callback_untrusted", "expired", "serverauth_only", "rsa_untrusted_callback", "ec_untrusted_callback":
 				return mustFail
 			}
 		}
